@@ -822,6 +822,23 @@ mod if_alloc {
         }
     }
 
+    #[cfg(futures_intrusive_verif)]
+    impl<MutexType: RawMutex> GenericSharedSemaphore<MutexType> {
+        /// Verification hook: read-only snapshot of the internal state
+        pub fn verif_snapshot(&self) -> crate::verif::Snapshot {
+            super::verif_hooks::snapshot(&self.state.lock())
+        }
+    }
+
+    #[cfg(futures_intrusive_verif)]
+    impl<MutexType: RawMutex> GenericSharedSemaphoreAcquireFuture<MutexType> {
+        /// Verification hook: the futures own wait node
+        pub fn verif_node(&self) -> crate::verif::NodeInfo {
+            let _guard = self.semaphore.as_ref().map(|m| m.state.lock());
+            super::verif_hooks::node_info(&self.wait_node)
+        }
+    }
+
     // Export parking_lot based shared semaphores in std mode
     #[cfg(feature = "std")]
     mod if_std {
@@ -844,3 +861,64 @@ mod if_alloc {
 
 #[cfg(feature = "alloc")]
 pub use self::if_alloc::*;
+
+#[cfg(futures_intrusive_verif)]
+mod verif_hooks {
+    use super::*;
+    use crate::verif::{waker_id, NodeInfo, Snapshot};
+
+    pub(super) fn node_info(node: &ListNode<WaitQueueEntry>) -> NodeInfo {
+        NodeInfo {
+            addr: node as *const _ as usize,
+            state: match node.state {
+                PollState::New => 0,
+                PollState::Waiting => 1,
+                PollState::Notified => 2,
+                PollState::Done => 3,
+            },
+            waker: waker_id(&node.task),
+            extra: node.required_permits as u64,
+            links: node.verif_links(),
+        }
+    }
+
+    pub(super) fn snapshot(state: &SemaphoreState) -> Snapshot {
+        let mut waiters = alloc::vec::Vec::new();
+        state
+            .waiters
+            .verif_for_each_oldest_first(1 << 16, &mut |n| {
+                waiters.push(node_info(n))
+            });
+        let mut newest_first = alloc::vec::Vec::new();
+        state
+            .waiters
+            .verif_for_each_newest_first(1 << 16, &mut |n| {
+                newest_first.push(node_info(n))
+            });
+        Snapshot {
+            flags: alloc::vec![
+                ("is_fair", state.is_fair as u64),
+                ("permits", state.permits as u64),
+            ],
+            queues: alloc::vec![
+                ("waiters", waiters),
+                ("waiters_rev", newest_first)
+            ],
+        }
+    }
+
+    impl<MutexType: RawMutex> GenericSemaphore<MutexType> {
+        /// Verification hook: read-only snapshot of the internal state
+        pub fn verif_snapshot(&self) -> Snapshot {
+            snapshot(&self.state.lock())
+        }
+    }
+
+    impl<'a, MutexType: RawMutex> GenericSemaphoreAcquireFuture<'a, MutexType> {
+        /// Verification hook: the futures own wait node
+        pub fn verif_node(&self) -> NodeInfo {
+            let _guard = self.semaphore.map(|m| m.state.lock());
+            node_info(&self.wait_node)
+        }
+    }
+}
